@@ -253,8 +253,9 @@ def _match_factors(
         )
         end_factor = _clean_pop(end_factors, end_dimension)
 
-        # TODO: this doesn't seem right in light of complex units with mixed exponents
-        exponent = -1 if any(e < 0 for e in end_dimension.exponents) else 1
+        # factors with negative exponents are filed under the inverse of their own
+        # dimension (see _splat)
+        exponent = 1 if end_factor.dimension is end_dimension else -1
 
         plan.append((1, combined_start_factor, end_factor, exponent))
 
